@@ -129,7 +129,7 @@ def run(out):
     esc = {"BS", "{", "}", "$", "*", "a", "\"", "[", ">"}
     insts = [('payloads-exhaustive', dict(constants={'MaxUnits': 2 if quick else 3, 'Plain': plain, 'Esc': esc})),
              ('payloads-simulated', dict(constants={'MaxUnits': 9 if quick else 14, 'Plain': plain, 'Esc': esc},
-                                         simulate=40 if quick else 1500, depth=12 if quick else 18, seed=out.seed))]
+                                         simulate=3 if quick else 60, depth=12 if quick else 18, seed=out.seed))]
     for name, kw in insts:
         r = common.run_tlc('AbbrText', timeout=3000, heap='12g', **kw)
         if r.violated:
@@ -139,6 +139,8 @@ def run(out):
         vecs = {}
         for v in r.vectors():
             vecs.setdefault(v['p'], v)
+        if r.mode == 'simulate':
+            vecs = dict(common.sample(vecs.items(), 2500 if quick else 40000, out.seed, key=lambda kv: repr(kv[0])))
         if r.mode == 'bfs':
             out.exhaustive = r.exhaustive
         items = [(v, bool((zlib.crc32(p.encode()) + out.seed) & 1)) for p, v in vecs.items()]
@@ -158,7 +160,7 @@ def run(out):
     atoms = {"a", " b ", "", "  ", "*c", "$x", "[d]", "a>b", "${1}", "$#", "it$$", "x y", "{z}", ".c", "eBSf", "'q'", "~"}
     winsts = [('wrap-exhaustive', dict(constants={'MaxLines': 2 if quick else 3, 'LineAtoms': atoms, 'TemplateIdx': set(range(1, 19))})),
               ('wrap-simulated', dict(constants={'MaxLines': 6, 'LineAtoms': atoms, 'TemplateIdx': set(range(1, 19))},
-                                      simulate=40 if quick else 800, depth=7, seed=out.seed))]
+                                      simulate=3 if quick else 60, depth=7, seed=out.seed))]
     for name, kw in winsts:
         r = common.run_tlc('AbbrWrap', timeout=3000, heap='12g', **kw)
         if r.violated:
@@ -168,6 +170,8 @@ def run(out):
         vecs = {}
         for v in r.vectors():
             vecs.setdefault((v['abbr'], tuple(v['lines'])), v)
+        if r.mode == 'simulate':
+            vecs = dict(common.sample(vecs.items(), 2500 if quick else 40000, out.seed, key=lambda kv: repr(kv[0])))
         bad = common.pool_map(_wrap_chunk, list(vecs.values()), chunk=400)
         out.add_tlc(name, r, vectors=len(vecs))
         out.traces += len(vecs)
